@@ -231,7 +231,14 @@ Definition is_write (p : wpc) : bool := match p with WWrite _ => true | _ => fal
 Definition writers (s : st) : bool := existsb (fun w => is_write (wp w)) (wk s).
 
 Definition mid_push (p : wpc) : bool :=
-  match p with WReserve | WPush _ | WFetch KSpin | WWrite KSpin => true | _ => false end.
+  match p with WSection | WReserve | WPush _ | WFetch KSpin | WWrite KSpin => true | _ => false end.
+(* inside the SCHEDULING section it entered itself *)
+Definition owner (p : wpc) : bool :=
+  match p with
+  | WCoal | WReserve | WPush _ | WFetch KSpin | WFetch KPushed | WWrite KSpin | WWrite KPushed
+  | WFinish => true
+  | _ => false
+  end.
 Definition reserving (p : wpc) : bool :=
   match p with WPush _ | WFetch KSpin | WWrite KSpin => true | _ => false end.
 Definition pushed (p : wpc) : bool :=
@@ -269,7 +276,7 @@ Record G1 (s : st) : Prop := mk_g1 {
   i_efd : reg_main s = Idle -> has_notified (flag (d s)) = true ->
     0 < efd (d s) \/ writers s = true;
   i_sqarm : sqarm (d s) = true -> pc (r s) = REnter \/ pc (r s) = RFlushSubmit;
-  i_need : need_push (d s) = true -> np_pc (pc (r s)) = true;
+  i_need : uring (c s) = true -> need_push (d s) = true -> np_pc (pc (r s)) = true;
   i_todo : todo (r s) <> [] -> pc (r s) = RClear;
   i_arm : uring (c s) = true ->
     karmed (d s) = true \/ sqarm (d s) = true \/ need_push (d s) = true \/
@@ -297,6 +304,9 @@ Record G3 (s : st) : Prop := mk_g3 {
   i_pending : pending (e s) =
     length (queue (e s)) + count (fun w => reserving (wp w)) (wk s) + drained (r s);
   i_cap : length (queue (e s)) <= qcap (c s);
+  i_section : forall t, nth_error (sching (e s)) t = Some true ->
+    exists i w, nth_error (wk s) i = Some w /\ tgt w = Some t /\ owner (wp w) = true;
+  i_lens : length (sching (e s)) = length (sched (e s));
   i_shape : forall i w, nth_error (wk s) i = Some w ->
     match tgt w with
     | None => main_pc (wp w) = true
@@ -353,7 +363,7 @@ Ltac dst s :=
 Ltac dg1 H :=
   destruct H as [I_idle I_efd I_sqarm I_need I_todo I_arm I_hot I_wait I_ext I_drained].
 Ltac dg2 H := destruct H as [I_main I_q].
-Ltac dg3 H := destruct H as [I_qmem I_sched I_seen I_pending I_cap I_shape].
+Ltac dg3 H := destruct H as [I_qmem I_sched I_seen I_pending I_cap I_section I_lens I_shape].
 
 Ltac red_all :=
   cbn [c d e r wk uring ext qcap maxi flag efd karmed sqarm need_push cq queue pending sched sching
@@ -408,4 +418,389 @@ Proof.
     intros Hu. specialize (I_arm Hu). specialize (Harm Hu). tauto.
   - apply (g2_frame s); [reflexivity|reflexivity| | |exact H2]; intros H; dst s; exact H.
   - apply (g3_frame s); [reflexivity|reflexivity|reflexivity|reflexivity|exact H3].
+Qed.
+
+(* ---------------------------------------------------------------------- *)
+(* steps of the runtime thread                                              *)
+
+Lemma writers_map g ws :
+  (forall w, wp (g w) = wp w) ->
+  existsb (fun w => is_write (wp w)) (map g ws) = existsb (fun w => is_write (wp w)) ws.
+Proof. intros H. apply existsb_map_same. intros x. rewrite H. reflexivity. Qed.
+
+Lemma consume_main_wp w : wp (consume_main w) = wp w.
+Proof. unfold consume_main. destruct (tgt w); [reflexivity|]. destruct (main_effective (wp w)); reflexivity. Qed.
+Lemma consume_task_wp t w : wp (consume_task t w) = wp w.
+Proof. unfold consume_task. destruct (tgt w); [|reflexivity]. destruct (_ && _); reflexivity. Qed.
+
+Ltac split_hs Hs :=
+  repeat match type of Hs with
+         | context [if ?b then _ else _] => destruct b eqn:?
+         | context [match ?x with _ => _ end] => destruct x eqn:?
+         end.
+
+(* case analysis of one step of the runtime thread *)
+Ltac rt_cases Hs :=
+  unfold rt_step in Hs; red_all;
+  try match goal with p : rpc |- _ => destruct p end;
+  unfold arm, submit, return_ok, do_reset, apply_cqe, ready, current in Hs; red_all;
+  cbn [v_flush_arms isnil] in Hs; split_hs Hs; try discriminate; inv_some Hs;
+  red_all; cbn [np_pc h_pc ext_pc isnil negb] in *.
+
+Ltac lfin :=
+  intros;
+  repeat match goal with
+         | H : _ /\ _ |- _ => destruct H
+         | H : ?a = ?a -> _ |- _ => specialize (H eq_refl)
+         end;
+  rewrite ?hn_idle, ?hn_awake, ?idle_is_idle, ?andb_false_r, ?andb_true_r, ?orb_false_r, ?orb_true_r in *;
+  repeat match goal with
+         | H : _ && _ = true |- _ => apply andb_prop in H; destruct H
+         | H : negb (isnil ?h) = false |- _ => destruct h; [clear H|discriminate H]
+         | H : negb ?x = true |- _ => destruct x; [discriminate H|clear H]
+         | H : negb ?x = false |- _ => destruct x; [clear H|discriminate H]
+         end;
+  try discriminate; try congruence; auto;
+  try solve [intuition (try discriminate; try congruence; auto)].
+
+Lemma g1_rt_idle_flag s s' :
+  (reg_main s = Idle -> fl_idle (flag (d s)) = true \/ has_notified (flag (d s)) = true) ->
+  rt_step current s = Some s' ->
+  (reg_main s' = Idle -> fl_idle (flag (d s')) = true \/ has_notified (flag (d s')) = true).
+Proof.
+  intros H Hs. dst s. destruct ex; rt_cases Hs; lfin.
+Qed.
+
+Lemma g1_rt_efd s s' :
+  (reg_main s = Idle -> has_notified (flag (d s)) = true -> 0 < efd (d s) \/ writers s = true) ->
+  rt_step current s = Some s' ->
+  (reg_main s' = Idle -> has_notified (flag (d s')) = true -> 0 < efd (d s') \/ writers s' = true).
+Proof.
+  intros H Hs. dst s. destruct ex; rt_cases Hs; lfin.
+Qed.
+
+Lemma g1_rt_sqarm s s' :
+  (sqarm (d s) = true -> pc (r s) = REnter \/ pc (r s) = RFlushSubmit) ->
+  rt_step current s = Some s' ->
+  (sqarm (d s') = true -> pc (r s') = REnter \/ pc (r s') = RFlushSubmit).
+Proof.
+  intros H Hs. dst s. destruct ex, ur; rt_cases Hs; lfin.
+Qed.
+
+Lemma g1_rt_need s s' :
+  (uring (c s) = true -> need_push (d s) = true -> np_pc (pc (r s)) = true) ->
+  rt_step current s = Some s' ->
+  (uring (c s') = true -> need_push (d s') = true -> np_pc (pc (r s')) = true).
+Proof.
+  intros H Hs. dst s. destruct ex, ur; rt_cases Hs; lfin.
+Qed.
+
+Lemma g1_rt_todo s s' :
+  (todo (r s) <> [] -> pc (r s) = RClear) ->
+  rt_step current s = Some s' ->
+  (todo (r s') <> [] -> pc (r s') = RClear).
+Proof.
+  intros H Hs. dst s. destruct ex, ur; rt_cases Hs; lfin.
+Qed.
+
+Lemma g1_rt_hot s s' :
+  (h_pc (pc (r s)) = true -> rem (r s) = false -> hot (e s) = []) ->
+  rt_step current s = Some s' ->
+  (h_pc (pc (r s')) = true -> rem (r s') = false -> hot (e s') = []).
+Proof.
+  intros H Hs. dst s. destruct ex, ur; rt_cases Hs; lfin.
+Qed.
+
+Lemma g1_rt_ext s s' :
+  (ext_pc (pc (r s)) = true -> ext (c s) = true) ->
+  rt_step current s = Some s' ->
+  (ext_pc (pc (r s')) = true -> ext (c s') = true).
+Proof.
+  intros H Hs. dst s. destruct ex, ur; rt_cases Hs; lfin.
+Qed.
+
+Lemma g1_rt_drained s s' :
+  (drained (r s) <> 0 -> pc (r s) = RDrainPop \/ pc (r s) = RDrainSub) ->
+  rt_step current s = Some s' ->
+  (drained (r s') <> 0 -> pc (r s') = RDrainPop \/ pc (r s') = RDrainSub).
+Proof.
+  intros H Hs. dst s. destruct ex, ur; rt_cases Hs; lfin.
+Qed.
+
+Lemma g1_rt_arm s s' :
+  (todo (r s) <> [] -> pc (r s) = RClear) ->
+  (uring (c s) = true ->
+    karmed (d s) = true \/ sqarm (d s) = true \/ need_push (d s) = true \/
+    In CFinal (cq (d s)) \/ In CFinal (todo (r s))) ->
+  rt_step current s = Some s' ->
+  (uring (c s') = true ->
+    karmed (d s') = true \/ sqarm (d s') = true \/ need_push (d s') = true \/
+    In CFinal (cq (d s')) \/ In CFinal (todo (r s'))).
+Proof.
+  intros Ht H Hs. dst s. destruct ur; [|rt_cases Hs; intros; discriminate].
+  specialize (H eq_refl). red_all.
+  destruct ex; rt_cases Hs; intros _; try exact H; auto 6;
+    try (assert (Etd : td = []) by (destruct td as [|x0 td0]; [reflexivity|]; exfalso;
+           assert (X : x0 :: td0 <> []) by discriminate; specialize (Ht X); discriminate); subst td);
+    repeat match goal with b : bool |- _ => destruct b end;
+    cbn [orb In] in *; intuition (try discriminate; auto).
+Qed.
+
+Lemma g1_rt_wait s s' :
+  (pc (r s) = RWait -> nw (r s) = true /\ rem (r s) = false /\ ext (c s) = false) ->
+  rt_step current s = Some s' ->
+  (pc (r s') = RWait -> nw (r s') = true /\ rem (r s') = false /\ ext (c s') = false).
+Proof.
+  intros H Hs. dst s. destruct ex, ur, nw0, rm; rt_cases Hs; lfin.
+Qed.
+
+Lemma consume_main_tgt w : tgt (consume_main w) = tgt w.
+Proof. unfold consume_main. destruct (tgt w) eqn:E; [exact E|]. destruct (main_effective (wp w)); cbn [tgt w_seen]; exact E. Qed.
+Lemma consume_task_tgt t w : tgt (consume_task t w) = tgt w.
+Proof. unfold consume_task. destruct (tgt w) eqn:E; [|exact E]. destruct (_ && _); cbn [tgt w_seen]; exact E. Qed.
+
+Ltac obfin X :=
+  red_all; cbn [negb] in *;
+  try exact I; try exact X;
+  try (rewrite X; cbn [negb]; auto; fail);
+  try (destruct X as [X|X]; [left; exact X|right; exact X]; fail);
+  try (destruct X as [X|X]; rewrite ?X; cbn [negb]; auto; fail);
+  lfin.
+
+Lemma consume_main_seen w :
+  tgt w = None -> main_effective (wp w) = true -> seen (consume_main w) = true.
+Proof. intros Ht He. unfold consume_main. rewrite Ht, He. reflexivity. Qed.
+Lemma consume_task_none t w : tgt w = None -> consume_task t w = w.
+Proof. intros Ht. unfold consume_task. rewrite Ht. reflexivity. Qed.
+
+Ltac g2_generic I_main I_q :=
+  constructor; red_all;
+  [ intros i w Hn Ht He Hse; pose proof (I_main i w Hn Ht He Hse) as X; obfin X
+  | intros t i w Hin Hn He; pose proof (I_q t i w Hin Hn He) as X; obfin X ].
+
+Lemma g2_rt s s' : G1 s -> G3 s -> G2 s -> rt_step current s = Some s' -> G2 s'.
+Proof.
+  intros H1 H3 H2 Hs. dg2 H2. pose proof (i_pending _ H3) as Hpend. clear H3.
+  pose proof (i_ext _ H1) as Hext. clear H1.
+  dst s. red_all.
+  destruct p eqn:Ep; try (
+    destruct ex, ur; rt_cases Hs; (g2_generic I_main I_q); fail).
+  - (* RMain0: the main future is polled *)
+    rt_cases Hs. constructor; red_all; [|intros; exact I].
+    intros i w Hn Ht He Hse. exfalso.
+    apply nth_error_map_inv in Hn. destruct Hn as (w0 & Hn0 & ->).
+    rewrite consume_main_tgt in Ht. rewrite consume_main_wp in He.
+    rewrite (consume_main_seen w0 Ht He) in Hse. discriminate.
+  - (* RDrainLoad *)
+    unfold rt_step in Hs. red_all. destruct (Nat.eqb pe 0) eqn:E.
+    + apply Nat.eqb_eq in E. subst pe. destruct qu as [|x qu]; [|cbn in Hpend; lia].
+      inv_some Hs. constructor; red_all.
+      * intros i w Hn Ht He Hse. pose proof (I_main i w Hn Ht He Hse) as X. exact X.
+      * intros t i w Hin. destruct Hin.
+    + inv_some Hs. g2_generic I_main I_q.
+  - (* RDrainPop *)
+    unfold rt_step in Hs. red_all. destruct qu as [|[t0 i0] q]; inv_some Hs; constructor; red_all.
+    + intros i w Hn Ht He Hse. exact (I_main i w Hn Ht He Hse).
+    + intros t i w Hin. destruct Hin.
+    + intros i w Hn Ht He Hse. exact (I_main i w Hn Ht He Hse).
+    + intros t i w Hin Hn He. exact (I_q t i w (or_intror Hin) Hn He).
+  - (* RRun *)
+    unfold rt_step in Hs. red_all. destruct bu as [|b]; [|destruct ho as [|t0 h]].
+    + inv_some Hs. destruct ex; g2_generic I_main I_q.
+    + inv_some Hs. destruct ex; g2_generic I_main I_q.
+    + inv_some Hs. constructor; red_all.
+      * intros i w Hn Ht He Hse.
+        apply nth_error_map_inv in Hn. destruct Hn as (w0 & Hn0 & ->).
+        rewrite consume_task_tgt in Ht. rewrite (consume_task_none _ _ Ht) in *.
+        exact (I_main i w0 Hn0 Ht He Hse).
+      * intros t i w Hin Hn He.
+        apply nth_error_map_inv in Hn. destruct Hn as (w0 & Hn0 & ->).
+        rewrite consume_task_wp in He. exact (I_q t i w0 Hin Hn0 He).
+Qed.
+
+Lemma consume_main_some w t : tgt w = Some t -> consume_main w = w.
+Proof. intros H. unfold consume_main. rewrite H. reflexivity. Qed.
+
+Lemma pushing_map t g ws :
+  (forall w, wp (g w) = wp w) -> (forall w, tgt (g w) = tgt w) ->
+  pushing t (map g ws) = pushing t ws.
+Proof.
+  intros Hw Ht. unfold pushing. apply existsb_map_same. intros x. unfold pushing_w.
+  rewrite Ht, Hw. reflexivity.
+Qed.
+
+Lemma count_res_map g ws :
+  (forall w, wp (g w) = wp w) ->
+  count (fun w => reserving (wp w)) (map g ws) = count (fun w => reserving (wp w)) ws.
+Proof. intros H. apply count_map_same. intros x. rewrite H. reflexivity. Qed.
+
+Lemma nth_error_map_some {A B} (g : A -> B) l i x :
+  nth_error l i = Some x -> nth_error (map g l) i = Some (g x).
+Proof. intros H. apply map_nth_error. exact H. Qed.
+
+(* G3 is insensitive to the ghost [seen] except through i_seen *)
+Lemma g3_map_wk s g :
+  (forall w, wp (g w) = wp w) -> (forall w, tgt (g w) = tgt w) ->
+  (forall i w t, nth_error (wk s) i = Some w -> tgt w = Some t ->
+     task_effective (wp w) = true -> seen (g w) = false -> seen w = false) ->
+  G3 s -> G3 (s_wk (map g (wk s)) s).
+Proof.
+  intros Hw Ht Hse H. dg3 H. dst s. red_all.
+  constructor; red_all.
+  - intros t i Hin. destruct (I_qmem t i Hin) as (w & Hn & Htg & Hp).
+    exists (g w). rewrite Hw, Ht. split; [apply nth_error_map_some; exact Hn|auto].
+  - intros t Hs. rewrite pushing_map by assumption. apply I_sched. exact Hs.
+  - intros i w t Hn Htg He Hsn.
+    apply nth_error_map_inv in Hn. destruct Hn as (w0 & Hn0 & ->).
+    rewrite Ht in Htg. rewrite Hw in He. eapply I_seen; eauto.
+  - rewrite count_res_map by assumption. exact I_pending.
+  - exact I_cap.
+  - intros t Hs. destruct (I_section t Hs) as (i & w & Hn & Htg & Ho).
+    exists i, (g w). rewrite Hw, Ht. split; [apply nth_error_map_some; exact Hn|auto].
+  - exact I_lens.
+  - intros i w Hn. apply nth_error_map_inv in Hn. destruct Hn as (w0 & Hn0 & ->).
+    rewrite Ht, Hw. apply (I_shape i w0 Hn0).
+Qed.
+
+Lemma consume_task_seen t w :
+  tgt w = Some t -> task_effective (wp w) = true -> seen (consume_task t w) = true.
+Proof. intros Ht He. unfold consume_task. rewrite Ht, He, Nat.eqb_refl. reflexivity. Qed.
+
+Lemma consume_task_seen_mono t w : seen (consume_task t w) = false -> seen w = false.
+Proof.
+  unfold consume_task. destruct (tgt w); [|auto]. destruct (_ && _); cbn; [discriminate|auto].
+Qed.
+Lemma consume_main_seen_mono w : seen (consume_main w) = false -> seen w = false.
+Proof.
+  unfold consume_main. destruct (tgt w); [auto|]. destruct (main_effective _); cbn; [discriminate|auto].
+Qed.
+
+Lemma g3_rt s s' : G1 s -> G3 s -> rt_step current s = Some s' -> G3 s'.
+Proof.
+  intros H1 H3 Hs. pose proof (i_drained _ H1) as Hdr. clear H1.
+  destruct (pc (r s)) eqn:Ep.
+  all: try (dst s; red_all; subst p; rt_cases Hs;
+            (eapply g3_frame; [| | | |exact H3]; reflexivity); fail).
+  - (* RMain0 *)
+    dst s. red_all. subst p. rt_cases Hs.
+    apply (g3_frame (s_wk (map consume_main ws)
+             (mk_st (mk_cfg ur ex qc mx) (mk_drv fl ef ka sq np cq0) (mk_exe qu pe sc sg ho)
+                    (mk_rt RMain0 nw0 rm td dr bu) ws))); try reflexivity.
+    apply g3_map_wk; [apply consume_main_wp|apply consume_main_tgt| |exact H3].
+    intros i w t _ _ _. apply consume_main_seen_mono.
+  - (* RDrainLoad *)
+    dst s. red_all. subst p.
+    assert (dr = 0) as ->.
+    { destruct dr; [reflexivity|]. destruct (Hdr ltac:(discriminate)); discriminate. }
+    rt_cases Hs; (eapply g3_frame; [| | | |exact H3]; reflexivity).
+  - (* RDrainPop *)
+    dg3 H3. dst s. red_all. subst p. unfold rt_step in Hs. red_all.
+    destruct qu as [|[t0 i0] q]; inv_some Hs.
+    + constructor; red_all; auto.
+    + constructor; red_all; auto.
+      * intros t i Hin. apply I_qmem. right. exact Hin.
+      * intros t Hs. destruct (I_sched t Hs) as [Hh|[(i & [Hi|Hi])|Hp]].
+        -- left. apply in_make_hot_keep. exact Hh.
+        -- inversion Hi; subst. left. apply in_make_hot.
+        -- right. left. exists i. exact Hi.
+        -- right. right. exact Hp.
+      * cbn [length] in *. lia.
+      * cbn [length] in *. lia.
+  - (* RDrainSub *)
+    dg3 H3. dst s. red_all. subst p. rt_cases Hs. constructor; red_all; auto. lia.
+  - (* RRun *)
+    dst s. red_all. subst p. unfold rt_step in Hs. red_all.
+    destruct bu as [|b]; [|destruct ho as [|t0 h]];
+      try (inv_some Hs; (eapply g3_frame; [| | | |exact H3]; reflexivity); fail).
+    inv_some Hs.
+    pose proof (g3_map_wk _ (consume_task t0) (consume_task_wp t0) (consume_task_tgt t0)
+                  (fun i w t _ _ _ => consume_task_seen_mono t0 w) H3) as H3'.
+    red_all. dg3 H3'. red_all. constructor; red_all; auto.
+    + intros t Hs.
+      assert (Hne : t <> t0).
+      { intros ->. destruct (Nat.lt_ge_cases t0 (length sc)) as [Hl|Hl].
+        - rewrite nth_error_upd_eq in Hs by exact Hl. discriminate.
+        - unfold upd in Hs. assert (E : Nat.ltb t0 (length sc) = false) by (apply Nat.ltb_ge; exact Hl).
+          rewrite E in Hs. apply nth_error_lt in Hs. lia. }
+      rewrite nth_error_upd_neq in Hs by (intro; apply Hne; auto).
+      destruct (I_sched t Hs) as [[Hh|Hh]|Hr]; [exfalso; auto|left; exact Hh|right; exact Hr].
+    + intros i w t Hn Htg He Hsn.
+      assert (Hne : t <> t0).
+      { intros ->. apply nth_error_map_inv in Hn. destruct Hn as (w0 & Hn0 & ->).
+        rewrite consume_task_tgt in Htg. rewrite consume_task_wp in He.
+        rewrite (consume_task_seen t0 w0 Htg He) in Hsn. discriminate. }
+      rewrite nth_error_upd_neq by (intro; apply Hne; auto).
+      eapply I_seen; eauto.
+    + rewrite upd_length. exact I_lens.
+    + intros i w Hn. specialize (I_shape i w Hn). rewrite upd_length. exact I_shape.
+Qed.
+
+Lemma g1_rt s s' : G1 s -> rt_step current s = Some s' -> G1 s'.
+Proof.
+  intros H Hs. dg1 H. constructor.
+  - eapply g1_rt_idle_flag; eauto.
+  - eapply g1_rt_efd; eauto.
+  - eapply g1_rt_sqarm; eauto.
+  - eapply g1_rt_need; eauto.
+  - eapply g1_rt_todo; eauto.
+  - eapply g1_rt_arm; eauto.
+  - eapply g1_rt_hot; eauto.
+  - eapply g1_rt_wait; eauto.
+  - eapply g1_rt_ext; eauto.
+  - eapply g1_rt_drained; eauto.
+Qed.
+
+Lemma inv_rt s s' : Inv s -> rt_step current s = Some s' -> Inv s'.
+Proof.
+  intros [H1 H2 H3] Hs. constructor.
+  - eapply g1_rt; eauto.
+  - eapply g2_rt; eauto.
+  - eapply g3_rt; eauto.
+Qed.
+
+Lemma inv_timeout s s' : Inv s -> rt_timeout s = Some s' -> Inv s'.
+Proof.
+  intros [H1 H2 H3] Hs.
+  pose proof (i_ext _ H1) as Hext.
+  assert (Hf : c s' = c s /\ e s' = e s /\ wk s' = wk s /\ drained (r s') = drained (r s)).
+  { dst s. unfold rt_timeout, return_ok in Hs. red_all.
+    destruct p; try discriminate; destruct ur; inv_some Hs; red_all; auto. }
+  destruct Hf as (Hc0 & He0 & Hw0 & Hd0).
+  constructor.
+  - dg1 H1. dst s. unfold rt_timeout, return_ok in Hs. red_all.
+    destruct p; try discriminate; destruct ur, ex; inv_some Hs; constructor; red_all;
+      cbn [np_pc h_pc ext_pc] in *; lfin.
+  - dg2 H2. dst s. unfold rt_timeout, return_ok in Hs. red_all.
+    destruct p; try discriminate; destruct ur, ex; inv_some Hs;
+      cbn [ext_pc] in Hext; try (specialize (Hext eq_refl); discriminate);
+      g2_generic I_main I_q.
+  - eapply g3_frame; eauto.
+Qed.
+
+Lemma inv_skip s s' : Inv s -> step s LSkip = Some s' -> Inv s'.
+Proof.
+  intros [H1 H2 H3] Hs. unfold step, step_v in Hs.
+  constructor.
+  - dg1 H1. dst s. red_all. destruct p; try discriminate. destruct ur; [discriminate|].
+    inv_some Hs. constructor; red_all; cbn [np_pc h_pc ext_pc] in *; lfin.
+  - dg2 H2. dst s. red_all. destruct p; try discriminate. destruct ur; [discriminate|].
+    inv_some Hs. destruct ex; g2_generic I_main I_q.
+  - dst s. red_all. destruct p; try discriminate. destruct ur; [discriminate|].
+    inv_some Hs. eapply g3_frame; [| | | |exact H3]; reflexivity.
+Qed.
+
+Lemma inv_local s t s' : Inv s -> rt_local t s = Some s' -> Inv s'.
+Proof.
+  intros [H1 H2 H3] Hs. unfold rt_local, local_notify in Hs.
+  constructor.
+  - dg1 H1. dst s. red_all.
+    destruct p; try discriminate; destruct (Nat.ltb t (length sc)); try discriminate;
+      destruct (fl_idle fl); inv_some Hs; constructor; red_all; cbn [np_pc h_pc ext_pc] in *; lfin.
+  - dg2 H2. dst s. red_all.
+    destruct p; try discriminate; destruct (Nat.ltb t (length sc)); try discriminate;
+      destruct (fl_idle fl); inv_some Hs; constructor; red_all; intros; try exact I; apply hn_wake.
+  - dg3 H3. dst s. red_all.
+    destruct p; try discriminate; destruct (Nat.ltb t (length sc)); try discriminate;
+      destruct (fl_idle fl); inv_some Hs; constructor; red_all; auto;
+      intros t' Hs; destruct (I_sched t' Hs) as [Hh|Hr]; auto using in_make_hot_keep.
 Qed.
